@@ -187,7 +187,17 @@ def _adapt_body(ctx, case):
     _labels(ctx, case, N, nfft, k)
     quiet = _no_dominant_line(case["x"])
     ctx.cls("no dominant line" if quiet else "line/trend present")
-    Sk, w, lam = spectrum.pmtm(x, NW=NW, k=case["k"], NFFT=case["NFFT"], method="adapt")
+    show = (N + k + nfft) % 8 == 0
+    if show:
+        # the quick-look option of the function: a display, not another estimate
+        import pylab
+        try:
+            Sk, w, lam = spectrum.pmtm(x, NW=NW, k=case["k"], NFFT=case["NFFT"], method="adapt", show=True)
+        finally:
+            pylab.close("all")
+        ctx.cls("show=True")
+    else:
+        Sk, w, lam = spectrum.pmtm(x, NW=NW, k=case["k"], NFFT=case["NFFT"], method="adapt")
     w = np.asarray(w)
     lam = np.asarray(lam, dtype=float)
     ctx.check(w.shape == (nfft, k), "adaptive weights have shape %s, expected %s" % (w.shape, (nfft, k)))
@@ -314,6 +324,14 @@ def _class_body(ctx, case):
         ctx.cls("record replaced")
     else:
         p = spectrum.MultiTapering(x, NW=NW, k=case["k"], NFFT=case["NFFT"], method=meth, scale_by_freq=False)
+    if (N + nfft) % 2 == 0:
+        # every other case: a second object with another bandwidth, number of tapers and method is created (and evaluated)
+        # before the first one is read -- each object has its own options
+        NWb = 2.0 if float(NW) != 2.0 else 3.0
+        if 2 * NWb < N - 1:
+            other = spectrum.MultiTapering(x, NW=NWb, k=2, NFFT=case["NFFT"], method="unity" if meth != "unity" else "eigen", scale_by_freq=False)
+            _ = other.psd
+            ctx.cls("second object alive")
     psd = np.asarray(p.psd)
     nb = ref.nbins_onesided(nfft) if real else nfft
     ctx.check(psd.shape == (nb,), "PSD has %s values, expected %d (%s data, NFFT=%d)"
@@ -512,4 +530,10 @@ from vlib import lifecheck as _life   # noqa: E402
          "bit-identical to what it was, and after p.data *= g, p.data -= mean or the construction buffer refilled in place and "
          "assigned again equals that of a fresh object on the samples now held: mtm_unity, mtm_eigen, mtm_adapt")
 def c19_life(ctx, case):
+    _life.body(ctx, case)
+
+
+@sub("C19.life_grid", enum=_life.life_enum(['mtm_unity', 'mtm_eigen', 'mtm_adapt']), exhaustive=True, shards_quick=2, shards_thorough=2,
+     doc="the same on a fixed grid: every action x real/complex x default/centred layout for mtm_unity, mtm_eigen, mtm_adapt")
+def c19_life_grid(ctx, case):
     _life.body(ctx, case)
